@@ -130,12 +130,13 @@ class Exec:
     """One complete execution of a scenario under a chooser."""
 
     def __init__(self, built, driver, plan=None, allow=False, stored=None, engine="async",
-                 listeners_fn=None):
+                 listeners_fn=None, model_fn=None):
         self.built = built
         self.cfg = Cfg(engine, True, allow, driver)
         self.plan = plan
         self.stored = stored
         self.listeners_fn = listeners_fn
+        self.model_fn = model_fn
 
     twin = None     # per-op results of the synchronous twin (exact list order)
 
@@ -143,7 +144,8 @@ class Exec:
         vl = VL()
         vl.reset(ch)
         p = Pair(self.built, self.cfg, plan=self.plan, stored=self.stored,
-                 listeners=self.listeners_fn() if self.listeners_fn else None)
+                 listeners=self.listeners_fn() if self.listeners_fn else None,
+                 model=self.model_fn() if self.model_fn else None)
         steps = 0
         with warnings.catch_warnings(record=True) as wlist:
             warnings.simplefilter("always")
@@ -207,8 +209,9 @@ def sync_twin_results(twin_built, ops, plan):
 
 def explore_scenario(res, sc_json, built, driver, ops, plan, bound, allow=False,
                      activate_first=False, max_execs=3000, engine="async", listeners_fn=None,
-                     twin=None):
-    ex = Exec(built, driver, plan=plan, allow=allow, engine=engine, listeners_fn=listeners_fn)
+                     twin=None, model_fn=None):
+    ex = Exec(built, driver, plan=plan, allow=allow, engine=engine, listeners_fn=listeners_fn,
+              model_fn=model_fn)
     ex.twin = twin
     state = {"msg": None, "choices": None, "steps": 0, "outcomes": set()}
 
@@ -280,6 +283,23 @@ def fam_listener(tier):
         for hist in (("a",), ("b", "a")):
             out.append(("listener", order, hist))
     return out
+
+
+def fam_model(tier):
+    """One class whose own callbacks are plain functions and that is given no listener,
+    instantiated in turn over plain and coroutine *models*: the engine choice and awaiting must
+    follow the instance's model, whatever was instantiated before."""
+    out = []
+    for order in (("sync", "async"), ("async", "sync"), ("sync", "async", "sync")):
+        for hist in (("a",), ("b", "a")):
+            out.append(("model", order, hist))
+    return out
+
+
+def model_machine():
+    base = ring3(asyn=False, provs=("sm", "model"))
+    aw = tuple((p, n, 1) for (p, n, f) in base.provided if p == "model")
+    return dataclasses.replace(base, awaits=aw)
 
 
 def listener_machine():
@@ -410,7 +430,8 @@ def _fold(res, r2, sig):
 
 def scenarios(tier):
     sel, ms = fam_select(tier)
-    return sel + fam_ring(tier) + fam_listener(tier) + fam_threads(tier) + fam_known(tier), ms
+    return sel + fam_ring(tier) + fam_listener(tier) + fam_model(tier) + fam_threads(tier) + \
+        fam_known(tier), ms
 
 
 def worker(block):
@@ -452,6 +473,24 @@ def run_one(res, sc, ms, tier, bound, only_driver=None, only=None):
         run_known(res, sc[1], tier)
     elif sc[0] == "threads":
         run_threads(res, sc[1], sc[2])
+    elif sc[0] == "model":
+        from ..spec import _mk, _model_init
+        _, order, hist = sc
+        built = cached_build(("model",), model_machine)
+        names = [n for (p, n, f) in built.m.provided if p == "model"]
+        mcls = {"sync": built.model_cls,
+                "async": type("Mod", (), dict({"_prov": "model", "__init__": _model_init},
+                                              **{n: _mk(n, "a") for n in names}))}
+        ops = [("send", ev, {}, f"e{i}") for i, ev in enumerate(hist)]
+        for driver in DRIVERS:
+            if only_driver and driver != only_driver:
+                continue
+            for k, kind in enumerate(order):
+                scj = {"family": "model", "order": list(order), "index": k,
+                       "history": list(hist), "tier": tier, "mask": kind}
+                explore_scenario(res, scj, built, driver if kind == "async" else "direct", ops,
+                                 None, bound, engine="async" if kind == "async" else "sync",
+                                 model_fn=lambda kind=kind: mcls[kind]())
     elif sc[0] == "listener":
         from ..spec import _mk
         _, order, hist = sc
@@ -558,6 +597,10 @@ def replay(sc):
         return res.violations[0]["message"] if res.violations else None
     if sc["family"] == "threads":
         run_threads(res, sc["mask"], tuple(sc["history"]))
+        return res.violations[0]["message"] if res.violations else None
+    if sc["family"] == "model":
+        run_one(res, ("model", tuple(sc["order"]), tuple(sc["history"])), ms, tier,
+                2 if tier == "quick" else None)
         return res.violations[0]["message"] if res.violations else None
     if sc["family"] == "listener":
         run_one(res, ("listener", tuple(sc["order"]), tuple(sc["history"])), ms, tier,
